@@ -4,8 +4,10 @@ from contracts.base_codemod import DYN_APPLY_ENSURES, _FC_MOD
 
 contract("codemodder.diff.create_diff_from_tree", props=["C03"], functional=True, reads=[],
          params={"original_tree": "Opaque", "new_tree": "Opaque"}, returns="str", trusted=True,
+         exsures=[("Exception", None)],
          ensures=[("diff of the two renderings", "result == text_diff(original_tree.code, new_tree.code)")],
-         note="create_diff_from_tree(a, b) is text_diff(a.code, b.code): difflib + difflines_to_str (bounded stand-in, see evidence)")
+         note="create_diff_from_tree(a, b) is text_diff(a.code, b.code): difflib + difflines_to_str (bounded stand-in, see evidence); "
+              "MAY RAISE: libcst code generation of a tree a transformer left malformed (e.g. a FunctionDef inside a one-line suite) fails")
 
 contract("codemodder.codemods.libcst_transformer.update_code", props=["C03", "C04"],
          params={"file_path": "Opaque", "new_code": "str"}, modifies=["ghost:fs"],
